@@ -477,7 +477,8 @@ def fit_trace(task):
     def swap(**k):
         bi, bj = codes(k["genotype_i"]), codes(k["genotype_j"])
         r = o_swap(**k)
-        ev.append({"op": "Exchange", "ti": q(k["temp_i"]), "tj": q(k["temp_j"]), "bi": bi, "bj": bj, "ai": codes(k["genotype_i"]), "aj": codes(k["genotype_j"]),
+        ev.append({"op": "Exchange", "inb": q(k.get("inbreeding", 0.0)), "luh": q(k.get("log_unique_haplotypes", 0.0)),
+                   "ti": q(k["temp_i"]), "tj": q(k["temp_j"]), "bi": bi, "bj": bj, "ai": codes(k["genotype_i"]), "aj": codes(k["genotype_j"]),
                    "li0": q(k["llk_i"]), "lj0": q(k["llk_j"]), "li1": q(r[0]), "lj1": q(r[1])})
         return r
 
@@ -506,4 +507,5 @@ def fit_trace(task):
             ev.append({"op": "RecordCountMismatch", "iterations": k, "rows": len(recs)})
     finally:
         MU.base_step, S.interval_step, M.chain_swap_step, MU.compound_step = o_base, o_int, o_swap, o_cs_m
-    return {"header": {"P": P, "N": N, "A": list(A), "temps": [q(t) for t in sorted(task["temps"])], "init": codes(init[0]), "steps": task["steps"]}, "events": ev}
+    return {"header": {"P": P, "N": N, "A": list(A), "temps": [q(t) for t in sorted(task["temps"])], "init": codes(init[0]), "steps": task["steps"],
+                       "inb": q(task.get("F", 0.0)), "luh": q(float(np.sum(np.log(A))))}, "events": ev}
